@@ -100,6 +100,27 @@ func (l *Loop) Run(ctx context.Context, t func(context.Context)) error {
 	}
 	done := make(chan struct{})
 	verifhook.Yield("taskloop.Run.beforeSelect")
+	if verifhook.On && (ctx.Err() != nil || l.Err() != nil) {
+		// Cancellation and the hand-off may both be possible right now; the runtime would choose
+		// at random, the deterministic simulator chooses here instead.
+		switch verifhook.Pick("taskloop.Run.select", 2) {
+		case 0:
+			select {
+			case l.tasks <- task{t, done}:
+				verifhook.Yield("taskloop.Run.afterHandoff")
+				<-done
+
+				return nil
+			default:
+			}
+		case 1:
+			if err := ctx.Err(); err != nil {
+				return err
+			}
+
+			return ErrClosed
+		}
+	}
 	select {
 	case <-ctx.Done():
 		return ctx.Err()
